@@ -390,6 +390,50 @@ int simk_sem_wait(sem_t *h) {
   ipc_exit();
   return rc;
 }
+// Variants the library does not use today; modelled so that a change which switches to them is judged, not refused.
+int simk_sem_trywait(sem_t *h) {
+  sc_enter(SC_SEM_WAIT);
+  Task *t = cur(); if (!t) return 0;
+  ipc_enter();
+  SemObj *o = sem_of_handle(h);
+  if (!o) { k->bad_sem_ops++; errno = EINVAL; ipc_exit(); violate("sem_invalid_handle", t->api ? t->api : "", "sem_trywait on a semaphore handle that is not open in this process"); }
+  int rc = 0;
+  if (o->value > 0) { o->value--; t->vc.join(o->vc); ev("sem_wait_ok", o->id, o->value); }
+  else { errno = EAGAIN; rc = -1; }
+  ipc_exit();
+  return rc;
+}
+int simk_sem_timedwait(sem_t *h, const struct timespec *abs) {
+  int n = sc_enter(SC_SEM_WAIT);
+  Task *t = cur(); if (!t) return 0;
+  ipc_enter();
+  SemObj *o = sem_of_handle(h);
+  if (!o) { k->bad_sem_ops++; errno = EINVAL; ipc_exit(); violate("sem_invalid_handle", t->api ? t->api : "", "sem_timedwait on a semaphore handle that is not open in this process"); }
+  int rc = 0;
+  bool first = true;
+  for (;;) {
+    if (o->value > 0) { o->value--; t->vc.join(o->vc); ev("sem_wait_ok", o->id, o->value); break; }
+    if (!abs || abs->tv_nsec < 0 || abs->tv_nsec > 999999999L) { errno = EINVAL; rc = -1; break; }
+    uint64_t deadline = (uint64_t)abs->tv_sec * 1000000000ULL + (uint64_t)abs->tv_nsec;
+    if (now_ns() >= deadline) { errno = ETIMEDOUT; rc = -1; break; }
+    if (want_eintr(SC_SEM_WAIT, first ? n : -1)) { errno = EINTR; rc = -1; probe("eintr.sem_wait"); break; }
+    first = false;
+    int id = t->id; int oid = o->id;
+    add_timer(deadline, [id, oid]() { Task *x = task(id); if (x && x->state == T_BLOCKED && x->bkind == B_SEM && x->bobj == oid) wake(x); });
+    block(B_SEM, o->id);
+    if (t->cancelled) { errno = EINTR; rc = -1; break; }
+  }
+  ipc_exit();
+  return rc;
+}
+int simk_sem_getvalue(sem_t *h, int *v) {
+  sc_enter(SC_SEM_POST);
+  Task *t = cur(); if (!t) return 0;
+  SemObj *o = sem_of_handle(h);
+  if (!o) { errno = EINVAL; return -1; }
+  *v = o->value;
+  return 0;
+}
 int simk_sem_post(sem_t *h) {
   sc_enter(SC_SEM_POST);
   Task *t = cur(); if (!t) return 0;
